@@ -34,6 +34,25 @@ type c09Case struct {
 func c09Gen(c *core.Ctx) func(yield func(c09Case) bool) {
 	return func(yield func(c09Case) bool) {
 		alpha := []int{scen.ENone, scen.EName, scen.ESlice}
+		// every shape of error value (causer without cause, empty message, format verbs, ...) at every
+		// single fault site of the 2-node programs and of one 3-cycle
+		stop := false
+		for shape := 1; shape < scen.NumErrShapes && !stop; shape++ {
+			run := func(n int, e [][]int) bool {
+				p := scen.GraphProg{N: n, Edges: e, Obs: 1, Config: true, Full: true, Faults: true, Kinds: "F", Family: "errshapes", ErrShape: shape}
+				if !yield(c09Case{p, 1}) {
+					stop = true
+				}
+				return !stop
+			}
+			allGraphs(2, alpha, false, func(e [][]int) bool { return run(2, e) })
+			if !stop {
+				run(3, [][]int{{0, scen.EName, 0}, {0, 0, scen.ESlice}, {scen.EName, 0, 0}})
+			}
+		}
+		if stop {
+			return
+		}
 		allGraphs(3, alpha, false, func(e [][]int) bool {
 			masks := []int{0, 1, 4}
 			obs := []int{1}
@@ -81,7 +100,7 @@ func c09Faults(c *core.Ctx) {
 			cc.Choices = ch.Choices()
 			armed := o.RT.Armed
 			key := func(kind string) string {
-				return "C09/" + kind + "/" + core.Hash(p.N, p.Edges, p.Lazy, p.Obs, p.Base, cc.Choices)
+				return "C09/" + kind + "/" + core.Hash(p.N, p.Edges, p.Lazy, p.Obs, p.Base, p.ErrShape, cc.Choices)
 			}
 			cls := func(s string) string { return strings.SplitN(s, ":", 2)[0] }
 			sig := fmt.Sprintf("armed=%d", len(armed))
